@@ -261,6 +261,21 @@ class GRUnit(Operation):
         raise SkipGradient("Gradient computed in GRU.backward()")
 
     def backward(self, grad, **kwargs):
+        # The input tensors as the graph holds them now: an in-place update of an input
+        # replaces it, in `variables`, with a placeholder carrying the forward-pass values.
+        (
+            self.X,
+            self.Uz,
+            self.Wz,
+            self.bz,
+            self.Ur,
+            self.Wr,
+            self.br,
+            self.Uh,
+            self.Wh,
+            self.bh,
+        ) = self.variables
+
         hidden_seq = self._hidden_seq()
         if hidden_seq is None:  # pragma: no cover
             assert False, "should be unreachable"
